@@ -306,7 +306,14 @@ pub fn gen_mixed(rng: &mut Rng, spec: SpecId, n_txs: usize) -> Block {
 pub fn gen_lifecycle(rng: &mut Rng, spec: SpecId, n_txs: usize) -> Block {
     let n_eoas = 2 + rng.below(3);
     let mut b = Builder::new(rng, spec, n_eoas);
-    b.setup_coinbase(rng);
+    // every other block pays its fees to an account that is destroyed and re-created in the
+    // block: the victim (existing, with storage) or the CREATE2 child (absent before the block).
+    // The fee recipient's account is versioned by the beneficiary history, its slots and storage
+    // reset markers by the multi-version memory like everybody else's.
+    let recipient = [0, 0, 1, 1, 2, 2, 2, 2][rng.below(8)];
+    if recipient >= 2 {
+        b.setup_coinbase(rng);
+    }
     let v = contract(10);
     let r = contract(11); // receiver of self-destructed funds (absent before the block)
     let victim = asm::assemble(&[Stmt::If(
@@ -333,6 +340,11 @@ pub fn gen_lifecycle(rng: &mut Rng, spec: SpecId, n_txs: usize) -> Block {
     let f = contract(13);
     b.db.insert_contract(f, factory, U256::from(1000u64), &[]);
     let child = f.create2_from_code(U256::from(5u64).to_be_bytes::<32>(), &child_init);
+    match recipient {
+        0 => b.env.beneficiary = v,
+        1 => b.env.beneficiary = child,
+        _ => {}
+    }
     // creator-and-destroyer in one tx: creates a child and immediately calls it with data
     let cd = asm::assemble(&[
         Stmt::Create { value: c(1), initcode: child_init.clone(), salt: None, result_slot: Some(0) },
@@ -352,9 +364,25 @@ pub fn gen_lifecycle(rng: &mut Rng, spec: SpecId, n_txs: usize) -> Block {
     b.db.insert_contract(contract(16), outer, U256::ZERO, &[]);
     // an empty pre-existing account (EIP-161 touch-delete target) and an absent one
     b.db.insert_eoa(contract(17), U256::ZERO, 0);
-    for _ in 0..n_txs {
-        let from = eoa(rng.below(n_eoas));
-        match rng.below(12) {
+    // the full life of the CREATE2 child, in block order: created, a slot the constructor does not
+    // write is written, destroyed, created again, the slot is read. Always when the child is the
+    // fee recipient, else in one block of six.
+    // When the victim is the fee recipient: probed, destroyed, then transactions that pay it
+    // fees without touching it (the account the rewards re-create must be a fresh one).
+    let scripted: &[usize] = if recipient == 0 {
+        &[0, 2, 10, 5, 6]
+    } else if recipient == 1 || rng.below(6) == 0 {
+        &[5, 6, 7, 5, 6]
+    } else {
+        &[]
+    };
+    // (with the victim as fee recipient the block ENDS inside the script, so that the last commit
+    // is a reward-only credit to the destroyed account: the final state then shows what the
+    // rewards were folded into; a later transaction touching the victim would overwrite it)
+    let n_txs = if recipient == 0 { 3 + rng.below(3) } else { n_txs.max(scripted.len()) };
+    for k in 0..n_txs {
+        let from = if k < scripted.len() { eoa(k % n_eoas) } else { eoa(rng.below(n_eoas)) };
+        match if k < scripted.len() { scripted[k] } else { rng.below(12) } {
             0 | 1 => {
                 b.call(rng, from, v, &[], "probe-victim");
             }
@@ -1307,6 +1335,21 @@ pub fn gen_stale_fatal(rng: &mut Rng) -> Block {
     let (f0, f1) = (eoa(0), eoa(1));
     b.call(rng, f0, precompile_addr(5), &[], "precompile-write-42");
     b.call(rng, f1, precompile_addr(6), &[], "precompile-fatal-if-7");
+    b.finish()
+}
+
+/// F8 witness block: an invalid (intrinsic gas) transfer, then two plain transfers; the fault is
+/// put on the fee recipient's account by the caller.
+pub fn gen_invalid_then_transfers(rng: &mut Rng) -> Block {
+    let mut b = Builder::new(rng, SpecId::SHANGHAI, 3);
+    b.db.insert_eoa(coinbase(), U256::from(5u64), 0);
+    let i = b.transfer(rng, eoa(0), eoa(2), 1);
+    b.txs[i].gas_limit = 20_000;
+    let n = b.txs[i].nonce;
+    b.nonces.insert(eoa(0), n);
+    b.desc[i].push_str(" [intrinsic gas]");
+    b.transfer(rng, eoa(1), eoa(2), 3);
+    b.transfer(rng, eoa(2), eoa(0), 5);
     b.finish()
 }
 
